@@ -154,7 +154,8 @@ func TestC02(t *testing.T) {
 		"(all of them for streams <= 400 bytes, all length-prefix/CR-LF cuts plus 64 sampled otherwise), all-1-byte delivery, and random k-way partitions biased to length prefixes and CR|LF; the end of stream is reported on a read of its own or (a third of the cases) together with the last bytes. "+
 		"Oracle: i-th Next() equals i-th value, bytes consumed after it equal the value's end offset exactly, then (nil,nil). "+
 		"Plus the same through the server's connection path: pipelined ECHO requests with payloads around 4 KiB / 8 KiB / 64 KiB boundaries in generated chunkings (single cut, fixed segments, random), every reply must be the payload sent. "+
-		"Non-trivial: >=2 values and a chunk boundary strictly inside the stream. Distinct = distinct (stream, partition).")
+		"LONG-LIVED PARSERS: one parser reads tens of thousands of small valid values (bulk strings and command arrays with lengths cycling through a drawn list, arrays of 50000 elements up to 1.4 million elements in total, a thousand null arrays followed by nested arrays, one array of up to 70000 sub-arrays); every value must come back exactly. "+
+		"Non-trivial: >=2 values and a chunk boundary strictly inside the stream (long streams: always). Distinct = distinct (stream, partition).")
 	defer h.Finish()
 	h.Probes()
 
@@ -274,6 +275,36 @@ func TestC02(t *testing.T) {
 			h.Col.Sample(map[string]any{"mode": "server-path", "payload_lengths": c.Lens, "chunk_sizes": c.Sizes})
 		}
 		h.Fail(rt, "c02.server", c, evalC02Server(c))
+	})
+
+	// long-lived parsers: many small valid values through ONE parser
+	h.Rapid("long-streams", h.N(60, 1500), func(rt *rapid.T) {
+		c := c02Long{Pattern: rapid.SampledFrom([]string{"bulks", "bulks", "commands", "commands", "big-arrays", "null-arrays", "siblings"}).Draw(rt, "pattern")}
+		c.Chunk = rapid.SampledFrom([]int{0, 0, 1460, 4096, 65536}).Draw(rt, "chunk")
+		switch c.Pattern {
+		case "bulks", "commands":
+			for i, k := 0, rapid.IntRange(1, 7).Draw(rt, "nsizes"); i < k; i++ {
+				c.Sizes = append(c.Sizes, rapid.SampledFrom([]int{0, 1, 1, 2, 3, 5, 8, 12, 13, 40, 100, 254, 255, 256, 257}).Draw(rt, "size"))
+			}
+			c.N = rapid.SampledFrom([]int{4000, 22000, 70000, 150000, 400000}).Draw(rt, "n")
+			if rapid.Bool().Draw(rt, "aperiodic") {
+				c.Seed = rapid.Uint32Range(1, 1<<31).Draw(rt, "seed")
+			}
+		case "big-arrays":
+			c.Sizes = []int{rapid.SampledFrom([]int{1000, 50000, 65536}).Draw(rt, "arity")}
+			c.N = 1400000/c.Sizes[0] + rapid.IntRange(0, 3).Draw(rt, "more")
+		case "null-arrays":
+			c.N = rapid.SampledFrom([]int{10, 1022, 1023, 1024, 1100, 5000}).Draw(rt, "n")
+			c.Sizes = []int{rapid.SampledFrom([]int{0, 1, 4, 500, 1000}).Draw(rt, "depth")}
+		default:
+			c.N = rapid.SampledFrom([]int{3, 1000, 1023, 1024, 1025, 1100, 5000, 70000}).Draw(rt, "n")
+			c.Sizes = []int{rapid.IntRange(0, 1).Draw(rt, "pairs")}
+		}
+		h.Col.Case(true, []byte(c.String()), "long-stream:"+c.Pattern)
+		if h.Col.WantSample() {
+			h.Col.Sample(c)
+		}
+		h.Fail(rt, "c02.long", c, evalC02Long(c))
 	})
 
 	// random k-way partitions
